@@ -186,8 +186,24 @@ def run(prog: Program, col: Collector, tier: str, refs: Optional[Refs] = None, c
                     if isinstance(t, ast.Compare) and len(t.ops) == 1 and isinstance(t.ops[0], (ast.Is, ast.IsNot)) and norm(t.left) == op_p and norm(t.comparators[0]) == norm(a0) \
                             and pos == isinstance(t.ops[0], ast.Is):
                         established = True
+            # the ops the path allows for `op`: `op in (A, B)` / `op is A` guards (polarity-aware)
+            allowed = None
+            for g_ in f.module.ancestors(c):
+                if isinstance(g_, ast.If):
+                    pos = any(c is z for st_ in g_.body for z in ast.walk(st_))
+                    t = g_.test
+                    while isinstance(t, ast.UnaryOp) and isinstance(t.op, ast.Not):
+                        t, pos = t.operand, not pos
+                    if isinstance(t, ast.Compare) and len(t.ops) == 1 and norm(t.left) == op_p:
+                        if isinstance(t.ops[0], (ast.In, ast.NotIn)) and isinstance(t.comparators[0], (ast.Tuple, ast.List, ast.Set)) and pos == isinstance(t.ops[0], ast.In):
+                            allowed = {norm(e).rsplit(".", 1)[-1] for e in t.comparators[0].elts}
+                        elif isinstance(t.ops[0], (ast.Is, ast.IsNot)) and pos == isinstance(t.ops[0], ast.Is):
+                            allowed = {norm(t.comparators[0]).rsplit(".", 1)[-1]}
+            PLAIN = {"add", "mul", "logaddexp", "max", "min", "and_", "or_"}
             if established:
                 col.ok(construct, f"`{op_p} is {norm(a0)}` holds on this path", f.loc(c))
+            elif isinstance(a0, (ast.Attribute, ast.Name)) and not (allowed and allowed <= PLAIN and norm(a0).rsplit(".", 1)[-1] in PLAIN):
+                col.unresolved(construct, f"reduces with `{norm(a0)}` under `{op_p}` in {sorted(allowed) if allowed else 'no recognised guard'}: a derived reduction the rule does not decide", f.loc(c))
             elif isinstance(a0, (ast.Attribute, ast.Name)):
                 col.violation(construct, f"the remaining variables are reduced with `{norm(a0)}` although the method was asked to reduce with `{op_p}` and the path does not establish that the "
                               f"two are the same op: Delta(x, p[i]).reduce(logaddexp, {{x, i}}) returns 0 instead of log|i|", f.loc(c))
